@@ -678,7 +678,7 @@ impl Ctx {
         match (&a, &lua) {
             (Parsed::Ok(c, _), LuaOutcome::Rejected(t)) if translator_error_shape(t) => {
                 if !matches!(c, Command::Unknown(_)) {
-                    self.lua_unknown.insert(name.clone());
+                    self.lua_unknown.insert(name.split('-').next().unwrap_or("").to_string());
                     self.out.count(&format!("lua-unknown:{}", name));
                     self.out.violation(
                         "C16:lua:command-unknown-to-translator",
@@ -706,7 +706,7 @@ impl Ctx {
             (Parsed::Err(e), LuaOutcome::Rejected(t)) => {
                 if translator_error_shape(t) {
                     // a command the translator does not know, sent with bad arguments: same class as unknown
-                    self.lua_unknown.insert(name.clone());
+                    self.lua_unknown.insert(name.split('-').next().unwrap_or("").to_string());
                     self.out.count(&format!("lua-unknown:{}", name));
                     self.out.violation(
                         "C16:lua:command-unknown-to-translator",
